@@ -42,6 +42,19 @@ const HISTORIES: [&str; 3] = ["plain", "deadline removed, old deadline passed", 
 
 const LONG_PREFIX: &str = "tenant:acme-corporation:eu-west-1:sessn:";
 
+/// scores of the sorted-set elements: both infinities, a tie, zero, a huge one (a seeded ZSCAN that collected its members
+/// with a score range between the extreme finite doubles never returned the members at +-inf)
+fn zscore_of(e: &str) -> &'static str {
+    match e {
+        "a" | "0" => "-inf",
+        "b" | "c" => "1",
+        "d" => "1e308",
+        "e" | "z" => "+inf",
+        "bb" => "-0",
+        _ => if e.ends_with('0') { "+inf" } else if e.ends_with('1') { "-inf" } else if e.ends_with('2') { "0" } else { "2.5" },
+    }
+}
+
 fn type_of_key(k: &str) -> &'static str {
     // b and d are lists, everything else is a string (for the TYPE filter)
     if k == "b" || k == "d" {
@@ -170,7 +183,7 @@ fn run_config(h: &mut Harness, c: &Config) -> Result<(Vec<String>, Value), Strin
             }
             "HSCAN" => h.aux_call(&["HSET", "coll", e, "v"])?,
             "SSCAN" => h.aux_call(&["SADD", "coll", e])?,
-            _ => h.aux_call(&["ZADD", "coll", "1", e])?,
+            _ => h.aux_call(&["ZADD", "coll", zscore_of(short), e])?,
         };
         if r.is_err() {
             return Err(format!("seeding {} failed: {}", e, resp::show(&r)));
